@@ -195,7 +195,28 @@ def impl(case):
                 tops = sorted(ti.variants.variants)
                 if len(tops) >= 2:
                     DT._dumps(ti, tops[-1])          # an earlier dump with another main variant is not content
-                outs.append(["ok", first, DT._dumps(ti, None)])
+                third = None
+                for top in sorted(order["variants"]):
+                    kids = {k: v for k, v in order["variants"][top]["children"].items() if v["uid"] not in order["variants"]}
+                    if kids:
+                        kid = kids[sorted(kids)[0]]
+                        if oi % 2:
+                            # a history: this child used to be another object with other paths, was written as main variant, and
+                            # was then replaced under its parent by the object described (content is what counts, not history)
+                            import productmd.treeinfo as _TI
+                            parent = ti.variants.variants[top]
+                            real = parent.variants[kid["id"]]
+                            old = _TI.Variant(ti)
+                            old.id, old.uid, old.name, old.type = real.id, real.uid, real.name, real.type
+                            old.paths.packages, old.paths.repository = "Old/Packages", "Old"
+                            del parent.variants[kid["id"]]
+                            parent.add(old)
+                            DT._dumps(ti, kid["uid"])
+                            del parent.variants[kid["id"]]
+                            parent.add(real)
+                        third = DT._dumps(ti, kid["uid"])
+                        break
+                outs.append(["ok", first, DT._dumps(ti, None), third])
             except EXC as e:
                 outs.append(["build-error", type(e).__name__])
         else:
